@@ -141,6 +141,7 @@ type Line struct {
 	Get     map[string]map[string]string `json:"get"`
 	Quiet   bool                         `json:"quiet"`
 	Spin    bool                         `json:"spin"`
+	Overrun bool                         `json:"overrun"` // the drain was cut after its step budget: the controllers never came to rest
 	Probe   AProbe                       `json:"probe"`
 }
 
